@@ -179,6 +179,44 @@ theorem contentStrict_some {raw : Bytes} (hne : raw ≠ []) :
   | none => simp
   | some p => simp
 
+theorem contentSignStrict_some {raw : Bytes} (hne : raw ≠ []) :
+    contentSignStrict (some raw) = true ↔ ∃ p, parse raw = some p ∧ V.Sign.pairedOk p = true ∧ p.noDupKeys = true := by
+  have he : raw.isEmpty = false := by simpa using hne
+  simp only [contentSignStrict, he, Bool.false_eq_true, ↓reduceIte]
+  cases hp : parse raw with
+  | none => simp
+  | some p => simp
+
+mutual
+/-- paired surrogate escapes: in particular no lone one (what C01's `canonical = encodeCanon ∘ parse` needs) -/
+theorem surrogatesOk_of_paired : (p : PVal) → V.Sign.pairedOk p = true → p.surrogatesOk = true
+  | .null, _ => rfl
+  | .bool _, _ => rfl
+  | .num _, _ => rfl
+  | .str raw _, h => by
+    simp only [V.Sign.pairedOk] at h
+    simp only [PVal.surrogatesOk]
+    exact noLoneSurr_of_surrogatesPaired _ raw (Nat.le_refl _) h
+  | .arr xs, h => by
+    simp only [V.Sign.pairedOk] at h
+    simp only [PVal.surrogatesOk, surrogatesOkList_of_paired xs h]
+  | .obj kvs, h => by
+    simp only [V.Sign.pairedOk] at h
+    simp only [PVal.surrogatesOk, surrogatesOkMembers_of_paired kvs h]
+theorem surrogatesOkList_of_paired : (xs : List PVal) → V.Sign.pairedOkList xs = true → surrogatesOkList xs = true
+  | [], _ => rfl
+  | x :: xs, h => by
+    simp only [V.Sign.pairedOkList, Bool.and_eq_true] at h
+    simp only [surrogatesOkList, surrogatesOk_of_paired x h.1, surrogatesOkList_of_paired xs h.2, Bool.and_self]
+theorem surrogatesOkMembers_of_paired : (kvs : List (Bytes × Bytes × PVal)) → V.Sign.pairedOkMembers kvs = true →
+    surrogatesOkMembers kvs = true
+  | [], _ => rfl
+  | (raw, _, v) :: kvs, h => by
+    simp only [V.Sign.pairedOkMembers, Bool.and_eq_true] at h
+    simp only [surrogatesOkMembers, noLoneSurr_of_surrogatesPaired _ raw (Nat.le_refl _) h.1.1,
+      surrogatesOk_of_paired v h.1.2, surrogatesOkMembers_of_paired kvs h.2, Bool.and_self]
+end
+
 /-- **What Sign stores passes the receiver's gate.**  The canonical JSON of a body that is valid UTF-8 and has no
     duplicate member names parses to a value whose strings are well formed (canonical spelling: valid UTF-8, no
     surrogate escape) and whose member names are still distinct. -/
